@@ -25,9 +25,9 @@
 (*                 is grounded iff all its components are; a functor       *)
 (*                 result is grounded if all its arguments are; constants  *)
 (*                 are sources; an aggregate is a source for its result    *)
-(*                 once the variables it shares with the enclosing scope   *)
-(*                 are grounded there (count/sum/mean) or are grounded by  *)
-(*                 its own body (min/max: witnesses, which are exported).  *)
+(*                 once its injected variables are grounded; the body of   *)
+(*                 an aggregate is a scope of its own (injected / witness /*)
+(*                 local variables as in ast/analysis/Aggregate.cpp).      *)
 (*                 Every variable and every record/ADT term of the clause  *)
 (*                 must be grounded: in particular those of the head, of   *)
 (*                 negated atoms and of constraints.                       *)
@@ -113,54 +113,70 @@ ScopeVars(lits) == UNION { CASE lits[i].k \in {"atom", "neg"} -> ArgsVars(lits[i
                              [] lits[i].k = "agg"   -> TVars(lits[i].res) : i \in 1..Len(lits) }
 AggOwnVars(l) == ScopeVars(l.body) \cup TVars(l.tgt)
 NoWitnessOp(op) == op \in {"count", "sum", "mean"}
+AggIdx(lits) == {i \in 1..Len(lits) : lits[i].k = "agg"}
 
-RECURSIVE Lfp(_, _, _), StepLit(_, _, _), AggState(_, _, _)
-\* state of an aggregate literal given the grounded variables G of its scope and the variables visible outside it
-AggState(l, G, visible) ==
-    LET own    == AggOwnVars(l)
-        shared == own \cap visible
-        inner  == Lfp(l.body, shared \cap G, visible \cup own)
-        ready  == IF NoWitnessOp(l.op) THEN shared \subseteq G ELSE shared \subseteq inner
-    IN [own |-> own, shared |-> shared, inner |-> inner, ready |-> ready,
-        exports |-> IF ~ready THEN {} ELSE Bind(l.res) \cup (IF NoWitnessOp(l.op) THEN {} ELSE shared \cap inner)]
-\* variables grounded by one literal, given G
-StepLit(l, G, visible) ==
-    CASE l.k = "atom"  -> UNION {Bind(l.args[i]) : i \in 1..Len(l.args)}
+\* variables grounded by literal i, given G; A[i] = [need, give] says when an aggregate is a source and for what
+StepLit(lits, i, G, A) ==
+    LET l == lits[i] IN
+    CASE l.k = "atom"  -> UNION {Bind(l.args[j]) : j \in 1..Len(l.args)}
       [] l.k = "neg"   -> {}
       [] l.k = "cmp"   -> IF l.op # "EQ" THEN {}
                           ELSE (IF GTerm(l.l, G, FALSE) THEN Bind(l.r) ELSE {}) \cup
                                (IF GTerm(l.r, G, FALSE) THEN Bind(l.l) ELSE {})
-      [] l.k = "range" -> IF \A i \in 1..Len(l.a) : GTerm(l.a[i], G, FALSE) THEN Bind(l.res) ELSE {}
-      [] l.k = "agg"   -> AggState(l, G, visible).exports
+      [] l.k = "range" -> IF \A j \in 1..Len(l.a) : GTerm(l.a[j], G, FALSE) THEN Bind(l.res) ELSE {}
+      [] l.k = "agg"   -> IF A[i].need \subseteq G THEN A[i].give ELSE {}
+RECURSIVE Lfp(_, _, _)
 \* least fixpoint of the implication system of one scope
-Lfp(lits, G, visible) ==
-    LET G2 == G \cup UNION {StepLit(lits[i], G, visible) : i \in 1..Len(lits)}
-    IN IF G2 = G THEN G ELSE Lfp(lits, G2, visible)
+Lfp(lits, G, A) ==
+    LET G2 == G \cup UNION {StepLit(lits, i, G, A) : i \in 1..Len(lits)}
+    IN IF G2 = G THEN G ELSE Lfp(lits, G2, A)
 
-RECURSIVE ScopeOK(_, _, _)
-\* every variable and record of the scope is grounded, recursively for the aggregates
-ScopeOK(lits, G, visible) ==
-    /\ ScopeVars(lits) \subseteq G
-    /\ \A i \in 1..Len(lits) :
-         LET l == lits[i] IN
-         CASE l.k = "atom"  -> \A j \in 1..Len(l.args) : RecsOK(l.args[j], G, TRUE)
-           [] l.k = "neg"   -> \A j \in 1..Len(l.args) : RecsOK(l.args[j], G, FALSE)
-           [] l.k = "cmp"   -> IF l.op = "EQ"
-                               THEN RecsOK(l.l, G, GTerm(l.r, G, FALSE)) /\ RecsOK(l.r, G, GTerm(l.l, G, FALSE))
-                               ELSE RecsOK(l.l, G, FALSE) /\ RecsOK(l.r, G, FALSE)
-           [] l.k = "range" -> TRUE
-           [] l.k = "agg"   -> LET st == AggState(l, G, visible) IN
-                               /\ st.ready
-                               /\ TVars(l.tgt) \subseteq st.inner
-                               /\ ScopeOK(l.body, st.inner, visible \cup st.own)
+(* One scope (a clause body, or the body of an aggregate): G0 = variables grounded on entry (injected), visible =   *)
+(* variables that occur outside this scope.  For each aggregate l of the scope (Aggregate.cpp):                     *)
+(*   injected(l) = variables of l that are grounded in the scope when l itself is not a source (the other          *)
+(*                 aggregates are), except the variables of its target expression;                                  *)
+(*   witness(l)  = variables of l that also occur outside l, are not grounded when every aggregate is a mere        *)
+(*                 source of its result, but are grounded by the body of l alone;                                   *)
+(*   the remaining variables of l are local to it (a local may shadow an outer variable of the same name).          *)
+(* l is a source for its result once its injected variables are grounded (so two aggregates that feed each other    *)
+(* ground nothing); min/max also export their witnesses; count/sum/mean must not have witnesses.                    *)
+RECURSIVE Scope(_, _, _)
+Scope(lits, G0, visible) ==
+    LET idx   == AggIdx(lits)
+        here  == visible \cup ScopeVars(lits)
+        Asrc  == [i \in idx |-> [need |-> {}, give |-> Bind(lits[i].res)]]
+        Gsrc  == Lfp(lits, G0, Asrc)
+        own   == [i \in idx |-> AggOwnVars(lits[i])]
+        inj   == [i \in idx |-> (own[i] \cap Lfp(lits, G0, [Asrc EXCEPT ![i] = [need |-> {}, give |-> {}]])) \ TVars(lits[i].tgt)]
+        alone == [i \in idx |-> Scope(lits[i].body, {}, here \cup own[i]).G]
+        wit   == [i \in idx |-> {v \in (own[i] \cap here) \ inj[i] : v \notin Gsrc /\ v \in alone[i]}]
+        Afin  == [i \in idx |-> [need |-> inj[i],
+                                 give |-> Bind(lits[i].res) \cup (IF NoWitnessOp(lits[i].op) THEN {} ELSE wit[i])]]
+        G     == Lfp(lits, G0, Afin)
+        inner == [i \in idx |-> Scope(lits[i].body, inj[i], here \cup own[i])]
+    IN [G  |-> G,
+        \* aggregates waiting for each other: injected variables that only another waiting aggregate could ground
+        cyc |-> \E i \in idx : (~(inj[i] \subseteq G) /\ inj[i] \subseteq Gsrc) \/ inner[i].cyc,
+        ok |-> /\ ScopeVars(lits) \subseteq G
+               /\ \A i \in 1..Len(lits) :
+                    LET l == lits[i] IN
+                    CASE l.k = "atom"  -> \A j \in 1..Len(l.args) : RecsOK(l.args[j], G, TRUE)
+                      [] l.k = "neg"   -> \A j \in 1..Len(l.args) : RecsOK(l.args[j], G, FALSE)
+                      [] l.k = "cmp"   -> IF l.op = "EQ"
+                                          THEN RecsOK(l.l, G, GTerm(l.r, G, FALSE)) /\ RecsOK(l.r, G, GTerm(l.l, G, FALSE))
+                                          ELSE RecsOK(l.l, G, FALSE) /\ RecsOK(l.r, G, FALSE)
+                      [] l.k = "range" -> TRUE
+                      [] l.k = "agg"   -> /\ inj[i] \subseteq G
+                                          /\ (NoWitnessOp(l.op) => wit[i] = {})
+                                          /\ inner[i].ok
+                                          /\ TVars(l.tgt) \subseteq inner[i].G]
 
 HeadVars(c) == ArgsVars(c.head.args)
 Grounded(c) ==
-    LET visible == HeadVars(c) \cup ScopeVars(c.body)
-        G == Lfp(c.body, {}, visible)
-    IN /\ HeadVars(c) \subseteq G
-       /\ \A j \in 1..Len(c.head.args) : RecsOK(c.head.args[j], G, FALSE)
-       /\ ScopeOK(c.body, G, visible)
+    LET sc == Scope(c.body, {}, HeadVars(c))
+    IN /\ sc.ok
+       /\ HeadVars(c) \subseteq sc.G
+       /\ \A j \in 1..Len(c.head.args) : RecsOK(c.head.args[j], sc.G, FALSE)
 
 \* ===========================================================================
 \*  3. types (unambiguous cases)
@@ -284,6 +300,8 @@ WellTyped(P, c) ==
 \* ===========================================================================
 AllGrounded(P) == \A i \in 1..Len(P.clauses) : Grounded(P.clauses[i])
 AllTyped(P)    == \A i \in 1..Len(P.clauses) : WellTyped(P, P.clauses[i])
-Why(P) == [stratifiable |-> Stratifiable(P), grounded |-> AllGrounded(P), typed |-> AllTyped(P)]
+\* some clause is ungrounded because two aggregates feed each other (souffle: "Mutually dependent aggregate")
+AggCycle(P)    == \E i \in 1..Len(P.clauses) : Scope(P.clauses[i].body, {}, HeadVars(P.clauses[i])).cyc
+Why(P) == [stratifiable |-> Stratifiable(P), grounded |-> AllGrounded(P), typed |-> AllTyped(P), aggcycle |-> AggCycle(P)]
 Verdict(P) == LET w == Why(P) IN IF w.stratifiable /\ w.grounded /\ w.typed THEN "accept" ELSE "reject"
 =============================================================================
